@@ -2,7 +2,6 @@ package corerad
 
 import (
 	"errors"
-	"io"
 	"log"
 	"net/netip"
 	"time"
@@ -66,6 +65,15 @@ func (r *zzRec) first(metric string) (zzSample, bool) {
 	return zzSample{}, false
 }
 
+func (r *zzRec) last(metric string) (zzSample, bool) {
+	for i := len(r.samples) - 1; i >= 0; i-- {
+		if r.samples[i].metric == metric {
+			return r.samples[i], true
+		}
+	}
+	return zzSample{}, false
+}
+
 func zzNewMetrics(r *zzRec) *Metrics {
 	return &Metrics{
 		Info:                         r.fn("info"),
@@ -112,7 +120,7 @@ func (s *zzState) SetIPv6Autoconf(iface string, enable bool) error { s.autoconf 
 var _ system.State = (*zzState)(nil)
 
 func zzNewContext(r *zzRec, st system.State) *Context {
-	return &Context{ll: log.New(io.Discard, "", 0), mm: zzNewMetrics(r), state: st}
+	return &Context{ll: log.New(zzLogW{}, "", 0), mm: zzNewMetrics(r), state: st}
 }
 
 // ---- connection stub ----
